@@ -337,6 +337,31 @@ fn c07_root(out: &mut Out, root: &Root, depth: u8, cap: u64, rng: &mut Rng) {
             out.add("stops_before_first_iteration_completed", 1);
         }
         judge_c07(out, root, &rootfen, &legal, depth, n, &r, total);
+        // what the interrupted search left in the table must not mislead the next searches:
+        // every position one move further is searched on the same table
+        if n % 5 == 0 && r.panicked.is_none() && legal.len() <= 48 {
+            for m in shadow.legal_moves() {
+                let mut child = root.clone();
+                child.moves.push(m.uci());
+                let cshadow = shadow.make(&m);
+                let clegal: Vec<String> = cshadow.legal_moves().iter().map(|x| x.uci()).collect();
+                let Ok(cg) = child.game() else { continue };
+                for limit in 1..=depth.min(2) {
+                    let r2 = search(out, &cg, &mut table, Some(limit), 0, 2_000_000, false);
+                    out.add("follow_up_searches_after_a_stop", 1);
+                    let bad = match r2.result_text() {
+                        Some(t) => !clegal.contains(&t),
+                        None => !clegal.is_empty(),
+                    };
+                    if bad || r2.panicked.is_some() {
+                        out.viol("C07", &format!("C07|followup|{rootfen}|{depth}|{n}|{}", m.uci()),
+                            &format!("search of {rootfen} (depth {depth}) was stopped at poll {n}; the next search on the same table, of the position after {} (limit {limit}), answered {:?} {:?} (legal there: {} moves)", m.uci(), r2.result_text(), r2.panicked, clegal.len()),
+                            json!({"kind":"stop-followup","root":root.json(),"depth":depth,"stop_at":n,"child_move":m.uci(),"limit":limit}));
+                        break;
+                    }
+                }
+            }
+        }
     }
     if out.want_sample() {
         out.sample(json!({"root": root.json(), "depth": depth, "polls_of_undisturbed_search": total, "every_stop_point_tried": exhaustive}));
@@ -430,6 +455,7 @@ pub fn run_c07(tier: &str, seed: u64) -> (Check, Agg) {
     chk.need("stops at the very first poll", agg.c("stops_at_first_poll"), 10);
     chk.need("stops before the first iteration completed", agg.c("stops_before_first_iteration_completed"), 10);
     chk.need("roots with every stop point tried", agg.c("roots_with_every_stop_point"), 10);
+    chk.need("follow-up searches on the table an interrupted search left behind", agg.c("follow_up_searches_after_a_stop"), 2000);
     (chk, agg)
 }
 
@@ -443,6 +469,20 @@ pub fn replay_c07(case: &Value, out: &mut Out) {
     let legal: Vec<String> = shadow.legal_moves().iter().map(|m| m.uci()).collect();
     let mut table = new_table();
     let r = search(out, &g, &mut table, Some(depth), n, 0, false);
+    if let Some(cm) = case["child_move"].as_str() {
+        let mut child = root.clone();
+        child.moves.push(cm.to_string());
+        if let (Some(cs), Ok(cg)) = (child.shadow(), child.game()) {
+            let limit = case["limit"].as_u64().unwrap_or(1) as u8;
+            let clegal: Vec<String> = cs.legal_moves().iter().map(|x| x.uci()).collect();
+            let r2 = search(out, &cg, &mut table, Some(limit), 0, 2_000_000, false);
+            println!("after the stop at poll {n}: search of the position after {cm} (limit {limit}) answered {:?}; legal: {clegal:?}", r2.result_text());
+            let bad = match r2.result_text() { Some(t) => !clegal.contains(&t), None => !clegal.is_empty() };
+            if bad {
+                out.viol("C07", "replay", "follow-up search answered an illegal move", case.clone());
+            }
+        }
+    }
     println!("root {} depth {depth} stop at poll {n}: result {:?}, polls {}, after stop {}, iterations completed {}", fen::render4(&shadow), r.result_text(), r.polls, r.after_stop, r.depth_lines.len());
     judge_c07(out, &root, &fen::render4(&shadow), &legal, depth, n, &r, 0);
 }
@@ -603,7 +643,7 @@ pub fn worker_c08(shard: usize, _nshards: usize, seed: u64, tier: &str, out: &mu
     }
 }
 
-pub fn run_c08(tier: &str, seed: u64) -> i32 {
+pub fn run_c08(tier: &str, seed: u64) -> (Check, Agg) {
     let nshards = 16usize.max(par::ncores());
     let mut chk = Check::new("C08", tier, seed, "exploration");
     let wd = Duration::from_secs(if tier == "thorough" { 10800 } else { 1500 });
@@ -631,7 +671,7 @@ pub fn run_c08(tier: &str, seed: u64) -> i32 {
     chk.need("deepest iteration reached", agg.m("deepest_iteration"), 33);
     chk.need("runs after the longest accepted game record", agg.c("runs_after_longest_game_record"), 8);
     chk.need("longest game record (states)", agg.m("longest_game_record"), 399);
-    finalize(chk, &agg)
+    (chk, agg)
 }
 
 pub fn replay_c08(case: &Value, out: &mut Out) {
